@@ -133,7 +133,7 @@ def planPl (o : Nat) : OpKind → Option Payload
   | .halt | .tryHalt | .consume => some .stop
   | .await | .join => none
 
-theorem plan_pl (w : Wiring) (hk : HKind) (o : Nat) (k : OpKind) : (plan w hk o k).pl = planPl o k := by
+theorem plan_pl02 (w : Wiring) (hk : HKind) (o : Nat) (k : OpKind) : (plan w hk o k).pl = planPl o k := by
   cases k <;> rfl
 
 theorem plan_join (w : Wiring) (hk : HKind) (o : Nat) (k : OpKind) :
@@ -154,7 +154,7 @@ theorem beginWait_phase (s : AState) (o h k j) : (s.beginWait o h k j).phase = s
   · split <;> rfl
   · rfl
 
-theorem stepBegin_spec {w s o h k s'} (hs : stepBegin w s o h k = some s') :
+theorem stepBegin_spec02 {w s o h k s'} (hs : stepBegin w s o h k = some s') :
     s.findOp o = none ∧ s'.phase = s.phase ∧
       ∃ st, s'.ops = s.ops ++ [{ o, h, kind := k, st }] ∧ BeginOut s s' o k st := by
   obtain ⟨hfresh, -⟩ := stepBegin_ops hs
@@ -172,7 +172,7 @@ theorem stepBegin_spec {w s o h k s'} (hs : stepBegin w s o h k = some s') :
         refine ⟨rfl, _, rfl, .refused _ rfl rfl ?_⟩
         cases k <;> simp [plan, reqOk, planPl] at hreq ⊢
       · rw [if_neg hreq] at hs
-        rw [plan_pl, plan_join] at hs
+        rw [plan_pl02, plan_join] at hs
         cases hpl : planPl o k with
         | none =>
           simp only [hpl] at hs; simp at hs; subst hs
